@@ -19,7 +19,7 @@ def check(run):
         S + '::add_timer': 'sorted insert', S + '::remove_timer': 'erase one', S + '::run': 'erase front before fire'},
         required=[S + '::add_timer', S + '::remove_timer', S + '::run'])
     engines.r2_writer_table(run, T + '::m_expired', {
-        T + '::high_resolution_timer': 'constructed expired', T + '::cancel': 'leaves queue', T + '::cancel_one': 'leaves queue (same pairing as cancel, checked below; normally delegates to cancel)', T + '::expires_at': 're-arm', T + '::expires_after': 're-arm', T + '::fire': 'fired'},
+        T + '::high_resolution_timer': 'constructed expired', T + '::cancel': 'leaves queue', T + '::cancel_one': 'leaves queue (same pairing as cancel, checked below; normally delegates to cancel)', T + '::expires_at': 're-arm', T + '::expires_after': 're-arm', T + '::fire': 'fired', T + '::async_wait': 'a wait on a cancelled timer whose expiry is still ahead queues it again (pairing checked below)'},
         required=[T + '::cancel', T + '::fire', T + '::expires_at', T + '::expires_after'])
     engines.r2_writer_table(run, T + '::m_expiration_time', {
         T + '::high_resolution_timer': 'initial', T + '::expires_at': 're-arm', T + '::expires_after': 're-arm'},
@@ -130,6 +130,33 @@ def check(run):
     okg = bool(fcalls) and all(any(q.render(aw, at) == 'm_expired' and pol for at, pol in q.guards_at(aw, c)) for c in fcalls)
     run.check(okg, 'R4', 'expired-wait-completes', T + '::async_wait', aw.loc(), 'a wait started on an expired timer is not completed at once under the guard m_expired', 'if (m_expired) fire(success)')
     run.check(not [f for f in fl if f.kind == 'invoke'], 'R6', 'never-inline', T + '::async_wait', aw.loc(), 'async_wait invokes the handler inline', 'no inline invocation')
+    # "never earlier than the expiry": m_expired only says the timer is not queued (it fired, or its wait was cancelled);
+    # completing at once also needs the expiry to have passed
+    import p02 as _p02
+    for c in fcalls:
+        due = False
+        for at, pol in q.guards_at(aw, c):
+            ca = q.cmp_atom(at)
+            if not ca:
+                continue
+            op_ = ca[0] if pol else q.NEG[ca[0]]
+            l_, r_ = ca[1], ca[2]
+            tl, tr = q.render(aw, l_).replace('this->', ''), q.render(aw, r_).replace('this->', '')
+            if tl in ('m_expiration_time', 'expiry()') and op_ in ('<=', '<') and _p02.fresh_clock_reading(aw, r_)[0]:
+                due = True
+            if tr in ('m_expiration_time', 'expiry()') and op_ in ('>=', '>') and _p02.fresh_clock_reading(aw, l_)[0]:
+                due = True
+        run.check(due, 'R4', 'immediate-completion-only-when-due', T + '::async_wait', aw.loc(c),
+                  'async_wait completes the wait at once whenever m_expired is set, without comparing the expiry with the clock: after cancel() (which leaves the expiry unchanged) a new wait completes immediately with success although the expiry lies in the future - earlier than max(expiry, time the wait was started)',
+                  'completed at once only when the expiry is not in the future')
+    # a cancelled timer whose expiry is still ahead is put back on the queue by the new wait (typestate pairing as for re-arm)
+    fz = exp_writes(aw, False)
+    if fz:
+        adds_ = [c for c in calls(aw, 'io_context::add_timer') if c.get('args') and q.is_this(c['args'][0])]
+        run.check(all(q.must_follow(aw, z, adds_) for z in fz) and all(q.any_precedes(aw, fz, a_) for a_ in adds_) and bool(adds_), 'R4', 'unexpired-implies-queued', T + '::async_wait', aw.loc(),
+                  'async_wait marks the timer pending without queuing it (or queues it without marking it)', 'm_expired=false is paired with add_timer(this)')
+        run.check(all(any(q.render(aw, at).replace('this->', '') == 'm_expired' and pol for at, pol in q.guards_at(aw, z)) for z in fz), 'R4', 'queued-once', T + '::async_wait', aw.loc(),
+                  'async_wait queues the timer without knowing that it is not queued already (no dominating m_expired test)', 'queued only under if (m_expired)')
 
     rn = fx.fn1(S + '::run')
     run.touch(rn)
